@@ -107,6 +107,35 @@ def handleBoot (l : Line) : IO Unit := do
   let kf := if tags.isEmpty then "" else " kf=" ++ "+".intercalate tags
   IO.println s!"spec {l.id} ord=1 in={if pos then "1" else "na"}{kf}"
 
+/-- several points summarised by one AddSummaries call: every point is bootstrapped from its own samples
+with the generator seeded from them (stream recorded per point) -/
+def handleMulti (l : Line) : IO Unit := do
+  let conf := (bits? (l.getD "conf")).getD 0
+  let n := (l.nat? "n").getD 0
+  let pts := (l.getD "pts").splitOn "|"
+  let results := pts.map fun p =>
+    match p.splitOn ";" with
+    | [nuS, deS, st] =>
+      let nu := goSort (bitsDots nuS)
+      let de := goSort (bitsDots deS)
+      let stream := if st == "" then [] else (st.splitOn ",").filterMap String.toNat?
+      let s := Boot.ratio Boot.f64 nu de conf n stream
+      let pos := (nu ++ de).all positive
+      let (nl, nh) := minMax nu
+      let (dl, dh) := minMax de
+      let lo := F64.div nl dh
+      let hi := F64.div nh dl
+      let within (x : Bits) : Bool := F64.le lo x && F64.le x hi
+      (s!"{canon s.low}:{canon s.center}:{canon s.high}", pos, within s.low && within s.center && within s.high)
+    | _ => ("?", false, true)
+  IO.println s!"obs {l.id} sums={",".intercalate (results.map (·.1))}"
+  -- specification: the summary of a point is the summary of its samples alone, and lies within the
+  -- ratios attainable from its own (positive) samples
+  let same := String.join (results.map fun _ => "1")
+  let inS := String.join (results.map fun r => if r.2.1 then "1" else "n")
+  let rounding := results.any fun r => r.2.1 && !r.2.2
+  IO.println s!"spec {l.id} same={same} in={inS}{if rounding then " kf=N3R" else ""}"
+
 def handlePct (l : Line) : IO Unit := do
   let a := bitsDots (l.getD "a")
   let p := (bits? (l.getD "p")).getD 0
@@ -134,6 +163,7 @@ def handle (l : Line) : IO Unit := do
   match l.getD "kind" with
   | "series" => handleSeries l
   | "boot" => handleBoot l
+  | "multi" => handleMulti l
   | "pct" => handlePct l
   | "date" => handleDate l
   | "dpair" => handlePair l
